@@ -235,6 +235,17 @@ class Tabulated(Sub):
             gotp = np.asarray(pr.omega['A', 'A'], dtype=float)
             if gotp.shape != (n,) or _bits(gotp) != _bits(want):
                 out.fail(sig + source + '/PRISM-omega-differs-from-table', 'PRISM.omega[A,A] is not table * site density')
+            # a second PRISM built from the same System (a sweep) sees the same table, and the System's own table object still
+            # returns the supplied values
+            with warnings.catch_warnings():
+                warnings.simplefilter('ignore')
+                pr2 = s.createPRISM()
+            got2 = np.asarray(pr2.omega['A', 'A'], dtype=float)
+            if got2.shape != (n,) or _bits(got2) != _bits(want):
+                out.fail(sig + source + '/second-PRISM-omega-differs-from-table', 'a second createPRISM() on the same System gives an omega that is not table * site density')
+            still = np.asarray(s.omega['A', 'A'].calculate(k), dtype=float)
+            if still.shape != (n,) or _bits(still) != _bits(vals):
+                out.fail(sig + source + '/table-changed-by-createPRISM', 'after createPRISM() the System\'s own table no longer returns the supplied values')
         finally:
             if tmp is not None:
                 shutil.rmtree(tmp, ignore_errors=True)
